@@ -12,6 +12,10 @@ use crate::un::{fnv_str, Un};
 
 pub struct C10;
 
+pub const SIG_ADJ_DANGLING: &str =
+    "help-between-argument-name-and-value-inside-adjacent-command-describes-parent";
+pub const SIG_BEHIND_ADJACENT: &str = "help-loses-to-error/behind-a-failing-adjacent-command";
+
 pub struct Case {
     pub level: Level,
     pub argv: Vec<Vec<u8>>,
@@ -24,6 +28,9 @@ fn cfg() -> BroadCfg {
         version: true,
         custom_help: true,
         help: HelpGen::Markers,
+        adjacent_cmds: true,
+        mixed_alt: true,
+        wrapped_groups: true,
         ..BroadCfg::default()
     }
 }
@@ -241,6 +248,39 @@ pub fn check_line(
         }
         v
     };
+    // chains of adjacent commands: the usage line carries the whole chain, and options of the
+    // enclosing level (its help and version flags included) may follow a block
+    let adjacent_names: Vec<String> = level
+        .body
+        .commands(true)
+        .iter()
+        .filter(|c| c.adjacent)
+        .flat_map(|c| c.all_names())
+        .collect();
+    let has_adj = !adjacent_names.is_empty();
+    let adj_left = |p: usize| -> bool {
+        argv[..p].iter().any(|a| {
+            std::str::from_utf8(a).map_or(false, |s| adjacent_names.iter().any(|n| n == s))
+        })
+    };
+    let strip_usage = |t: &str| -> String {
+        let mut out = String::new();
+        let mut skipping = false;
+        for line in t.lines() {
+            if line.starts_with("Usage") {
+                skipping = true;
+            }
+            if skipping {
+                if line.trim().is_empty() {
+                    skipping = false;
+                }
+                continue;
+            }
+            out.push_str(line);
+            out.push('\n');
+        }
+        out
+    };
     let base = run(&parser, argv);
     ctx.eval(1);
     let base_fails = !matches!(base, Outcome::Value(_));
@@ -267,7 +307,46 @@ pub fn check_line(
         }
         match &out {
             Outcome::Stdout { text, .. } => {
-                let cands: Vec<(Vec<String>, &Level)> = if mutated {
+                // on a clean line a help flag inside the contiguous block of an adjacent command
+                // must describe that command
+                let in_block: Option<(Vec<String>, &Level)> = if !mutated && has_adj {
+                    let root_names: Vec<String> = level
+                        .body
+                        .named_leaves(false)
+                        .iter()
+                        .flat_map(|l| {
+                            l.longs
+                                .iter()
+                                .map(|x| format!("--{}", x))
+                                .chain(l.shorts.iter().map(|x| format!("-{}", x)))
+                                .collect::<Vec<_>>()
+                        })
+                        .collect();
+                    let mut found = None;
+                    for j in (0..p).rev() {
+                        let s = String::from_utf8_lossy(&argv[j]).into_owned();
+                        let head = s.split('=').next().unwrap_or("").to_owned();
+                        if root_names.iter().any(|n| *n == head || (n.chars().count() == 2 && s.starts_with(n.as_str()) && !s.starts_with("--"))) {
+                            break;
+                        }
+                        if let Some(c) = level
+                            .body
+                            .commands(false)
+                            .into_iter()
+                            .find(|c| c.adjacent && c.all_names().iter().any(|n| *n == s))
+                        {
+                            found = Some((vec![c.name.clone()], &c.level));
+                            break;
+                        }
+                    }
+                    found
+                } else {
+                    None
+                };
+                let block_check = in_block.is_some();
+                let cands: Vec<(Vec<String>, &Level)> = if let Some(b) = in_block {
+                    vec![b]
+                } else if mutated || has_adj {
                     chain_at(level, argv, p)
                 } else {
                     vec![exact_at(level, argv, p)]
@@ -291,14 +370,28 @@ pub fn check_line(
                             t
                         }
                     };
-                    if &t == text {
+                    if &t == text || (has_adj && strip_usage(&t) == strip_usage(text)) {
                         ok = true;
                         break;
                     }
                 }
                 if !ok {
+                    // inside an adjacent block: is the item just before the help flag an
+                    // argument name of that command still waiting for its value?
+                    let dangling = block_check
+                        && p > 0
+                        && cands[0].1.body.named_leaves(false).iter().any(|l| {
+                            let s = String::from_utf8_lossy(&argv[p - 1]).into_owned();
+                            l.is_arg()
+                                && (l.longs.iter().any(|x| format!("--{}", x) == s)
+                                    || l.shorts.iter().any(|x| format!("-{}", x) == s))
+                        });
                     return Verdict::fail(
-                        if mutated {
+                        if dangling {
+                            SIG_ADJ_DANGLING
+                        } else if block_check {
+                            "help-describes-wrong-level/inside-adjacent-block"
+                        } else if mutated {
                             "help-describes-a-level-not-entered"
                         } else {
                             "help-describes-wrong-level"
@@ -322,11 +415,15 @@ pub fn check_line(
             Outcome::Stderr(t) => {
                 let depth = exact_at(level, argv, p).0.len();
                 return Verdict::fail(
-                    format!(
-                        "help-loses-to-error/{}/{}",
-                        if depth > 0 { "after-command" } else { "top-level" },
-                        classify_stderr(t)
-                    ),
+                    if adj_left(p) {
+                        SIG_BEHIND_ADJACENT.to_owned()
+                    } else {
+                        format!(
+                            "help-loses-to-error/{}/{}",
+                            if depth > 0 { "after-command" } else { "top-level" },
+                            classify_stderr(t)
+                        )
+                    },
                     format!(
                         "{:?}: help flag present as an item of its own but the outcome is stderr {:?}",
                         show_argv(&a),
@@ -352,6 +449,10 @@ pub fn check_line(
             a.insert(p, item);
             let out = run(&parser, &a);
             ctx.eval(1);
+            if adj_left(p) {
+                // the enclosing level's version flag may legitimately apply here
+                continue;
+            }
             match (&l.info.version, &out) {
                 (Some(v), Outcome::Stdout { text, .. }) => {
                     if text.trim() != format!("Version: {}", v) {
@@ -431,6 +532,14 @@ impl Prop for C10 {
                 name: "sub-help-with-missing-parent-field",
                 run: reg_parent_missing,
             },
+            Regression {
+                name: "help-behind-a-failing-adjacent-command",
+                run: reg_behind_adjacent,
+            },
+            Regression {
+                name: "help-after-dangling-argument-name-in-adjacent-command",
+                run: reg_adj_dangling,
+            },
         ]
     }
 }
@@ -450,4 +559,31 @@ fn reg_parent_missing(ctx: &mut Ctx) -> Verdict {
         alt(vec![cmd("sub", sub)]),
     ]));
     check_line(&l, &crate::outcome::argv_of(&["sub"]), false, ctx)
+}
+
+fn reg_behind_adjacent(ctx: &mut Ctx) -> Verdict {
+    use crate::mk::*;
+    let mut build = cmd("build", lvl(seq(vec![pos("ARG", Ty::Str)])));
+    if let Node::Cmd(c) = &mut build {
+        c.adjacent = true;
+    }
+    let l = lvl(seq(vec![arg("a", &["alpha"], Ty::Str), many(alt(vec![build]))]));
+    // `-a o1` belongs to the top level and is consumed first, so the block of `build` is empty
+    check_line(&l, &crate::outcome::argv_of(&["build", "-a", "o1"]), true, ctx)
+}
+
+fn reg_adj_dangling(ctx: &mut Ctx) -> Verdict {
+    use crate::mk::*;
+    let mk = |name: &str, inner: Node| {
+        let mut c = cmd(name, lvl(seq(vec![inner])));
+        if let Node::Cmd(c) = &mut c {
+            c.adjacent = true;
+        }
+        c
+    };
+    let l = lvl(seq(vec![many(alt(vec![
+        mk("run", opt(arg("", &["alpha"], Ty::Str))),
+        mk("build", Node::Pure("unit".into())),
+    ]))]));
+    check_line(&l, &crate::outcome::argv_of(&["run", "--alpha", "v1"]), false, ctx)
 }
